@@ -250,10 +250,16 @@ class SpawnProcess(multiprocessing.context.SpawnProcess):
         # queue's write lock); then the logger thread never gets to see the end
         # marker, and waiting for it here would block `join`, `result` and
         # `exception` forever.
+        #
+        # In that case wait a bounded time only. Usually the logger thread has seen
+        # the end marker by now and this joins it, so that `_finalize` does not
+        # run into the dead-lock described above for children that were killed.
         while self.exitcode is None:
             time.sleep(0.001)
         if self.exitcode >= 0:
             self._logger_thread_.join()
+        else:
+            self._logger_thread_.join(timeout=1)
 
     @staticmethod
     def _finalize(logger_thread, q):
